@@ -17,9 +17,12 @@ Tables == {TA, TB, TC}
 E(k, cat, tbl) == [k |-> k, cat |-> cat, tbl |-> tbl, gt |-> tbl, ts |-> 0, end |-> 0, rotfile |-> 0, rotpos |-> 0, fake |-> FALSE]
 None == [id |-> 0, db |-> "", name |-> "", cols |-> 0]
 
-Stmts == {<<k, t>> : k \in {"write", "update", "delete"}, t \in Tables} \cup {<<"q", None>>, <<"ig", None>>}
+\* statements of a transaction body: row changes, a statement-format DML ("q"), a DDL logged inside the transaction ("dq":
+\* CREATE / DROP TEMPORARY TABLE do not commit implicitly), an ignorable event ("ig")
+Stmts == {<<k, t>> : k \in {"write", "update", "delete"}, t \in Tables} \cup {<<"q", None>>, <<"dq", None>>, <<"ig", None>>}
 StmtEvents(s) ==
   IF s[1] = "q" THEN <<E("query", "dml", None)>>
+  ELSE IF s[1] = "dq" THEN <<E("query", "ddl", None)>>
   ELSE IF s[1] = "ig" THEN <<E("unknown", "none", None)>>
   ELSE <<E("tablemap", "none", s[2]), E(s[1], "none", s[2])>>
 
